@@ -12,7 +12,7 @@ use std::panic::{catch_unwind, AssertUnwindSafe};
 
 const TYPES: [&str; 9] = ["AWS::S3::Bucket", "AWS::EC2::Volume", "Custom::Thing", "AWS::IAM::Role", "AWS::EC2::VPC", "AWS::SNS::Topic", "AWS::SecretsManager::Secret", "AWS::KMS::Key", "AWS::Kinesis::Stream"];
 const PROPS: [&str; 6] = ["Name", "Size", "Enabled", "Tags", "Config", "p_1"];
-const ODD_PROPS: [&str; 3] = ["my-prop", "with space", "dot.ted"];
+const ODD_PROPS: [&str; 4] = ["my-prop", "with space", "dot.ted", "123"];
 const STRS: [&str; 12] = ["a", "us-west-2b", "x y", "10", "true", "", "héllo", "it's", "a/b:c", "null", "AWS::S3::Bucket", "[1]"];
 const PAD_STRS: [&str; 3] = [" padded ", "tab\t", " lead"];
 const HARD_STRS: [&str; 3] = ["quo\"te", "back\\slash", "${x}"];
